@@ -158,6 +158,39 @@ func LoadProgram(repo string, patterns []string) (*Program, error) {
 		}
 		P.Funcs[fullKey(fn)] = fn
 	}
+	// methods of (generic) named types that nothing references are not in
+	// AllFunctions: materialise them explicitly
+	for path, sp := range P.Pkgs {
+		if !strings.HasPrefix(path, modulePath) {
+			continue
+		}
+		scope := sp.Pkg.Scope()
+		for _, name := range scope.Names() {
+			tn, ok := scope.Lookup(name).(*types.TypeName)
+			if !ok {
+				continue
+			}
+			named, ok := tn.Type().(*types.Named)
+			if !ok {
+				continue
+			}
+			for i := 0; i < named.NumMethods(); i++ {
+				fn := prog.FuncValue(named.Method(i))
+				if fn == nil || len(fn.Blocks) == 0 {
+					continue
+				}
+				key := fullKey(fn)
+				if _, seen := P.Funcs[key]; !seen {
+					P.Funcs[key] = fn
+				}
+				for _, anon := range fn.AnonFuncs {
+					if _, seen := P.Funcs[fullKey(anon)]; !seen {
+						P.Funcs[fullKey(anon)] = anon
+					}
+				}
+			}
+		}
+	}
 	// contract files
 	for path, sp := range P.Pkgs {
 		if !strings.HasPrefix(path, modulePath) {
